@@ -44,6 +44,8 @@ pub const SOURCE_POOL: &[&str] = &[
     "a.js", "b.js", "src/a.js", "src/é.js", "日本.ts", "😀.js", "", "a.js", "/abs/x.js", "/abs/y/z.js",
     "http://h/x.js", "https://h/y.js", "https:", "webpack:///./x", "C:\\x", "q\"uote.js", "back\\slash.js",
     "new\nline.js", "nul\u{0}.js", "</script>", "/", "http:", "./rel.js", "../up.js", "/abs/x.js",
+    // relative names that merely look like the absolute prefixes
+    "httpClient.ts", "https-proxy/agent.js", "http", "https", "http/index.js", "htt", "h", "//cdn/x.js",
 ];
 
 pub const NAME_POOL: &[&str] = &[
